@@ -155,7 +155,7 @@ class FnTotality:
 
     def need_min(self, site, L, need, what):
         """Obligation need <= L."""
-        if need == INF or need >= (1 << 62) or need >= self.ev.ptr_max // 2:
+        if need == INF or need >= (1 << 40) or need >= self.ev.ptr_max // 2:
             site.status = "open"
             site.why = "%s: required length unbounded" % what
             return
